@@ -262,7 +262,7 @@ def run(rep):
     nruns = 150 if quick else 3000
     for i in range(nruns):
         seed = rng.getrandbits(30)
-        args = (seed, 1 + i % 3, rng.choice([1, 2, 3]), ["none", "partial"][i % 2], i % 2, rng.choice([None, None, 400, 250, 120]), i % 5 == 0)
+        args = (seed, 1 + i % 3, rng.choice([1, 2, 3]), "stall" if i % 6 == 5 else ["none", "partial"][i % 2], i % 2, rng.choice([None, None, 400, 250, 120]), i % 5 == 0)
         verdict, info = assoc.run_send(*args)
         rep.case(("send", i))
         if verdict:
